@@ -97,7 +97,7 @@ def _std_grid(rng: Rng, fam, m):
 EXHAUSTIVE = dict(quick=False, thorough=True)
 
 
-LABEL_SETS = [None, None, ("t", "s"), ("z", "a"), ("input_dim_1", "input_dim_0"), ("x2", "x1"), ("b", "a")]
+LABEL_SETS = [None, None, ("t", "s", "r"), ("z", "a", "m"), ("input_dim_1", "input_dim_0", "input_dim_2"), ("x2", "x1", "x0"), ("b", "c", "a")]
 
 
 def _labels(case, k):
@@ -107,14 +107,36 @@ def _labels(case, k):
     return [f"input_dim_{i}" for i in range(k)] if not ls else list(ls)[:k]
 
 
+def _basis3_case(rng: Rng):
+    """Basis with THREE input dimensions: mixed families, tiny and different sizes / grid lengths per dimension."""
+    add = rng.random() < 0.6
+    p = rng.choice([1, 1, 2])
+    fams = [rng.choice(FAMILIES) for _ in range(3)]
+    ns = rng.sample([1, 2, 3], 3) if rng.random() < 0.6 else [rng.randint(1, 3) for _ in range(3)]
+    ns = [max(n, p + (1 if add else 0)) if f == "bsplines" else n for f, n in zip(fams, ns)]
+    ms = rng.sample([2, 3, 4, 5], 3)
+    xs = [_std_grid(rng, f, m) for f, m in zip(fams, ms)]
+    c = dict(kind="basis3", fam=fams, n=ns, p=p, add=add, norm=rng.random() < 0.25, x3=[[rs(v) for v in x] for x in xs],
+             labels=rng.choice(LABEL_SETS))
+    if "bsplines" in fams and rng.random() < 0.4:
+        bsx = [v for f, x in zip(fams, xs) if f == "bsplines" for v in x]
+        c.update(dmin=rs(min(bsx) - rng.choice([0, Fraction(1, 2)])), dmax=rs(max(bsx) + rng.choice([0, 1])))
+    return c
+
+
 def _multi_case(rng: Rng):
     """Wrapper chain MultivariateBasis -> Basis -> _simulate_basis -> family: components of different dimension
     (1-D string names and 2-D tuple names), every option non-default some of the time."""
     N = rng.choice([4, 4, 6, 6, 8, 9])
     splits = {4: [(2, 2)], 6: [(2, 3), (3, 2)], 8: [(2, 4), (4, 2)], 9: [(3, 3)]}[N]
+    splits3 = {4: [(2, 2, 1), (1, 2, 2), (2, 1, 2)], 6: [(1, 2, 3), (3, 1, 2), (2, 3, 1)], 8: [(2, 2, 2), (2, 4, 1)], 9: [(3, 3, 1), (1, 3, 3)]}[N]
     comps = []
     for _ in range(rng.choice([2, 2, 3])):
-        if rng.random() < 0.6:
+        u = rng.random()
+        if u < 0.25:  # a component with three input dimensions
+            n = list(rng.choice(splits3))
+            fams = [rng.choice(FAMILIES + ["bsplines"]) if k > 1 else rng.choice(["legendre", "fourier", "wiener"]) for k in n]
+        elif u < 0.7:
             n = list(rng.choice(splits))
             fams = [rng.choice(FAMILIES + ["bsplines"]) for _ in n]
         else:
@@ -174,7 +196,7 @@ def gen_cases(rng: Rng, tier):
                             g2 = _std_grid(rng, f1, 5)
                         yield dict(kind="basis2", fam=[f1, f1], n=[3, 3], p=2, add=add, norm=False, iso=True,
                                    x1=[rs(v) for v in g1], x2=[rs(v) for v in g2])
-    kinds = ["bs", "bs", "bs", "sim", "sim", "ortho", "basis1", "basis2", "basis2", "multi", "reject"]
+    kinds = ["bs", "bs", "bs", "sim", "sim", "ortho", "basis1", "basis2", "basis2", "multi", "reject", "basis3"]
     for k in range(n):
         kind = kinds[k % len(kinds)]
         if kind == "bs":
@@ -254,6 +276,8 @@ def gen_cases(rng: Rng, tier):
             yield c
         elif kind == "multi":
             yield _multi_case(rng)
+        elif kind == "basis3":
+            yield _basis3_case(rng)
         elif kind == "reject":
             which = rng.choice(["name", "nseg0", "flat"])
             p = rng.randint(1, 4)
